@@ -163,6 +163,15 @@ def main(argv):
             futs.append(ex.submit(do_silent, m, props, baseline))
         for f in futs:
             results.append(f.result())
+    # an expectation that failed is tried once more on its own (the first round runs 16 scratch builds at once)
+    byid = {m['id']: ('fire', m) for m in cat['fire']}
+    byid.update({m['id']: ('silent', m) for m in cat['silent']})
+    for k, (mid, st, det) in enumerate(results):
+        if st != 'ok':
+            kind, m = byid[mid]
+            results[k] = do_fire(m, props) if kind == 'fire' else do_silent(m, props, baseline)
+            if results[k][1] == 'ok':
+                print('%-36s passed on the second attempt (first: %s %s)' % (mid, st, det[:120]))
     rc = 0
     for mid, st, det in results:
         if st != 'ok':
